@@ -527,3 +527,23 @@ func accumulates(g *Gate, s *Summary, acc *E, coll *E, P func(elem *E) Ref) (cov
 	}
 	return covers, covers && exact
 }
+
+// loopAround finds the innermost loop around an instruction of activation act,
+// looking first in act itself and then, call site by call site, in the
+// activations it was expanded into (up to and including top).  It returns the
+// loop and the activation the loop belongs to.
+func loopAround(top, act *Summary, ins ssa.Instruction) (*Loop, *Summary) {
+	blk := ins.Block()
+	for a := act; a != nil; a = a.Parent {
+		if blk != nil {
+			if l := innermostLoop(loopsOf(a.Fn), blk); l != nil {
+				return l, a
+			}
+		}
+		if a == top || a.Site == nil {
+			break
+		}
+		blk = a.Site.Block()
+	}
+	return nil, nil
+}
